@@ -741,6 +741,12 @@ func (u *Unit) callStatic(c *ast.CallExpr, fun ast.Expr, fi *FuncInfo, env *Env)
 	args := u.evalArgs(c, sig, env)
 	blk := u.Prog.Contracts.Get(fi.Key, "")
 	if blk != nil && blk.Opts["inline"] == "" {
+		if recv != nil && u.recvActualTy != nil && u.sortOf(u.recvActualTy) == recv.Sort {
+			// the callee's clauses read the receiver at the type of this call's receiver expression (same representation)
+			actual := Value{recv.Term, u.recvActualTy}
+			u.recvActualTy = nil
+			return u.callByContract(c, fi, blk, &actual, args, env)
+		}
 		return u.callByContract(c, fi, blk, recv, args, env)
 	}
 	return u.inline(c, fi, recv, args, env)
@@ -752,18 +758,22 @@ func (u *Unit) adjustRecv(rv Value, want types.Type, env *Env, at ast.Node) Valu
 	if _, isNamedPtr := types.Unalias(rv.Ty).(*types.Pointer); !isNamedPtr {
 		havePtr = false
 	}
+	u.recvActualTy = nil
 	switch {
 	case wantPtr == havePtr:
+		u.recvActualTy = rv.Ty
 		return Value{rv.Term, want}
 	case wantPtr && !havePtr:
 		// implicit &x on an addressable receiver: a cell holding the current value
 		r := u.alloc(env, "recvaddr")
 		u.ptrStore(env, r, rv.Ty, rv.Term)
 		u.note("implicit address-of receiver " + u.exprText(at) + " modelled as a fresh cell holding the current value")
+		u.recvActualTy = types.NewPointer(rv.Ty)
 		return Value{r, want}
 	case !wantPtr && havePtr:
 		pt := types.Unalias(rv.Ty).(*types.Pointer)
 		u.safety(env, "nil", at.Pos(), u.exprText(at), Not(Same(rv.Term, Term{"nil_Ref", SRef})))
+		u.recvActualTy = pt.Elem()
 		return Value{u.ptrLoad(env, rv.Term, pt.Elem()), want}
 	}
 	return rv
